@@ -502,9 +502,11 @@ fn assignments_to_actions<'a>(
                                     if let Err(e) = the_width.combine_expr_and_wire(width, name, expr) {
                                         errors.push(e);
                                     }
+                                    let mut expr = (*expr).clone();
+                                    expr.fix_mux_widths(widths, constants);
                                     result.push(Action::Assign(
                                         String::from(name),
-                                        (*expr).clone(),
+                                        expr,
                                         *the_width,
                                     ));
                                 }
